@@ -333,6 +333,22 @@ func runEmit(_ *testing.T, e Emit) engine.Verdict {
 		<-tp.got
 		cli.Close()
 		rec = tp.records()[0]
+	case "bridgeinvalid":
+		// a request the bridge turns down itself (wrong version): the error reply
+		// is written by the bridge and bears the caller's id all the same
+		b := jhttp.NewBridge(handler.Map{"m": func(ctx context.Context, req *jrpc2.Request) (any, error) { return 1, nil }}, nil)
+		defer b.Close()
+		wantID = e.ID
+		e.Code = -32600
+		body := fmt.Sprintf(`{"jsonrpc":"1.0","id":%s,"method":"m"}`, e.ID)
+		req := httptest.NewRequest("POST", "/", strings.NewReader(body))
+		req.Header.Set("Content-Type", "application/json")
+		w := httptest.NewRecorder()
+		b.ServeHTTP(w, req)
+		if w.Code != 200 {
+			return fail("bridge-status", "bridge answered %d %q to %s", w.Code, w.Body.String(), body)
+		}
+		rec = w.Body.Bytes()
 	case "bridge", "bridgebatch":
 		b := jhttp.NewBridge(handler.Map{"note": func(ctx context.Context, req *jrpc2.Request) (any, error) { return nil, nil },
 			"m": func(ctx context.Context, req *jrpc2.Request) (any, error) {
@@ -509,7 +525,7 @@ func genJSON(t *rapid.T, depth int, ws bool) string {
 }
 
 func genEmit(t *rapid.T) Emit {
-	e := Emit{Via: rapid.SampledFrom([]string{"call", "notify", "batch", "response", "errresponse", "push", "callback", "cbreply", "bridge", "bridgebatch"}).Draw(t, "via")}
+	e := Emit{Via: rapid.SampledFrom([]string{"call", "notify", "batch", "response", "errresponse", "push", "callback", "cbreply", "bridge", "bridgebatch", "bridgeinvalid"}).Draw(t, "via")}
 	e.Method = genText(t, "m", 1)
 	e.Raw = rapid.Bool().Draw(t, "raw")
 	structured := e.Via == "call" || e.Via == "notify" || e.Via == "batch" || e.Via == "push" || e.Via == "callback"
@@ -523,7 +539,8 @@ func genEmit(t *rapid.T) Emit {
 		}
 		e.Params = json.RawMessage(v)
 	}
-	e.ID = rapid.SampledFrom([]string{"1", "0", "-0", "1e3", "1.5", `""`, `"1"`, `"a\nb"`, `"😀"`, "12345678901234567890", `"` + strings.Repeat("x", 300) + `"`}).Draw(t, "id")
+	e.ID = rapid.SampledFrom([]string{"1", "0", "-0", "1e3", "1.5", `""`, `"1"`, `"a\nb"`, `"😀"`, "12345678901234567890", `"` + strings.Repeat("x", 300) + `"`,
+		`"100%"`, `"%s"`, `"50%% off"`, `"a%vb%[2]d"`}).Draw(t, "id")
 	if e.Via == "errresponse" || ((e.Via == "cbreply" || e.Via == "bridge" || e.Via == "bridgebatch") && rapid.Bool().Draw(t, "iserr")) {
 		e.Code = rapid.SampledFrom([]int{1, -1, -32000, -32099, 2147483647, -2147483648, -32603, 7}).Draw(t, "code")
 		if e.Via == "errresponse" && rapid.IntRange(0, 4).Draw(t, "codezero") == 0 {
